@@ -152,8 +152,8 @@ PROPS = {
         "trusted_base": ["hand-written whole-program model GGV.Model.Prog, tied by the prog correspondence (real analyzers in-process vs model)", "APF extractor (go/ast + go/types, independent of gogreement)"],
     },
     "C11": {
-        "theorems": T("C11", ["shared_state_justified", "shared_state_inventory", "shared_lookups_read_only", "contains_is_shared_lookup", "once_deterministic", "inv_step"]) + ["GGV.Props.C12.index_order_free", "GGV.Props.C12.reported_keys_order_free"],
-        "suites": [("bin", {"mode": "determinism"})],
+        "theorems": T("C11", ["shared_state_justified", "shared_state_inventory", "shared_lookups_read_only", "contains_is_shared_lookup", "once_deterministic", "inv_step", "baseShift_monotone", "base_shift_invariant", "base_shift_codes"]) + ["GGV.Props.C12.index_order_free", "GGV.Props.C12.reported_keys_order_free"],
+        "suites": [("bin", {"mode": "determinism"}), ("shift", {})],
         "binary": True, "table_diag": True,
         "assumptions": ["PARTIAL: the Go memory model and races inside x/tools are outside the model; sync.Once's contract (Do returns only after the first f completed) is assumed",
                         "the race detector is search support only (thorough tier / after a mismatch); no claim rests on it"],
